@@ -70,13 +70,19 @@ def _classes():
     return Target, Sess, LoggingDaemonObject
 
 
+class NoTextError(Exception):
+    """an exception that cannot be turned into text"""
+    def __str__(self):
+        raise RuntimeError("this exception has no text form")
+
+
 class Unserialisable(object):
     def __getstate__(self):
         raise RuntimeError("this object cannot be serialised")
 
 
 VALIDATOR_EXC = ["ValueError", "KeyError", "RuntimeError", "PyroError", "SecurityError", "CommunicationError", "TimeoutError", "ProtocolError",
-                 "SerializeError", "NamingError", "ZeroDivisionError", "OSError", "Exception", "ConnectionClosedError"]
+                 "SerializeError", "NamingError", "ZeroDivisionError", "OSError", "Exception", "ConnectionClosedError", "NoTextError"]
 
 first_kinds = st.sampled_from(["connect"] * 6 + ["invoke", "invoke", "ping", "result", "connectok", "connectfail", "type0", "type7", "type255"])
 shapes = st.sampled_from(["ok", "ok", "ok", "ok", "no-handshake", "no-object", "empty-dict", "list", "str", "none", "nested", "int", "extra-keys"])
@@ -116,7 +122,7 @@ def case_strategy(draw):
         validator["value"] = draw(st.sampled_from([None, 0, "", "ok", [1, 2], {"a": 1}, False]))
     if vmode == "raise":
         validator["exc"] = draw(st.sampled_from(VALIDATOR_EXC))
-        validator["msg"] = draw(st.sampled_from(["denied!", "", "x" * 50, "ünï"]))
+        validator["msg"] = draw(st.sampled_from(["denied!", "", "x" * 50, "ünï", "no user report-\udcff"]))      # (the last one: text that json/msgpack cannot encode)
     pipe = draw(st.lists(pipeline_item, max_size=3))
     return {"first": first, "validator": validator, "pipeline": pipe, "keep_open": draw(st.integers(0, 2)) == 0,
             "logwire": draw(st.integers(0, 2)) == 0}
@@ -297,6 +303,8 @@ def run_case(case, variant=None, keep=False):
             return val["value"]
         if val["mode"] == "return-unserialisable":
             return Unserialisable()
+        if val["exc"] == "NoTextError":
+            raise NoTextError(val["msg"])
         cls = getattr(Pyro5.errors, val["exc"], None) or getattr(__import__("builtins"), val["exc"])
         raise cls(val["msg"])
     S.daemon.v_validator = validator
@@ -381,6 +389,8 @@ def run_case(case, variant=None, keep=False):
                     feat = "validator-raises-" + val["exc"] if (val["mode"] == "raise" and (wellformed or consulted_) and variant != "thread-poolfull") else "first-message"
                     if stalled:
                         feat = "stalled-first-message"
+                    elif feat.startswith("validator-raises-") and (val["exc"] == "NoTextError" or "\udcff" in val.get("msg", "")) and val["exc"] != "ConnectionClosedError":
+                        feat = "reason-cannot-be-rendered"      # (one root cause whatever the class: the failure report itself fails)
                     viol("no-connectfail:" + feat, "no CONNECTFAIL as first reply (%s): got types %r, ended %r" % (_why(first, val, variant, wellformed), types, ended))
             else:
                 try:
